@@ -162,14 +162,17 @@ Fixpoint ifold_loop (f : fn) (acc : Z) (rest : list arg) : result bytes :=
               end
   end.
 
+(* arithmaticHelperiEx (after fix 2e0440e): the operands are checked strictly left to right, whether
+   they are constants or groups: the first operand that is not an integer gives <BAD-TYPE>, a zero
+   divisor met before it gives <VALUE>.  (A non-integer constant additionally makes Compile report an
+   error; the stage, hence the output, is the same.) *)
 Definition f_ifold (f : fn) (args : list arg) : result bytes :=
   match args with
   | a0 :: ((_ :: _) as rest) =>
-      if existsb const_bad_int args then ok ErrorNum
-      else match atoi (a_val a0) with
-           | None => ok ErrorNum
-           | Some v0 => ifold_loop f v0 rest
-           end
+      match atoi (a_val a0) with
+      | None => ok ErrorNum
+      | Some v0 => ifold_loop f v0 rest
+      end
   | _ => ok ErrorArgCount
   end.
 
